@@ -8,7 +8,7 @@
    number of clients each with or without L1) by ANY finite sequence of store / fetch / rise / clear /
    evict / stats / clock tick / raw foreign frame operations by any clients in any order.
    `quiet o` = o is a fetch, an L1 eviction or a stats call (operations that only read the servers). *)
-From CppcmsV Require Import Base.Tac Base.CSem C10.Defs C10.Proofs C10.Coherence C10.Codec C10.Effects C10.Refine C10.Placement C10.Triggers C10.L1Triggers C10.Link
+From CppcmsV Require Import Base.Tac Base.CSem C10.Defs C10.Proofs C10.Coherence C10.Codec C10.Effects C10.Refine C10.Placement C10.Triggers C10.L1Triggers C10.Link C10.Wrap C10.Restart C10.NetDefs C10.NetProofs C10.NetDown C10.Order C10.TrigExact C10.NetRpc
   gen.Gen_tcphash gen.Gen_tcpproto.
 Local Open Scope N_scope.
 
@@ -316,3 +316,360 @@ Example key_spread_nonvacuous :
   server_of 2 [107] = 1%nat /\ server_of 2 [108] = 0%nat /\ server_of 3 [107] = 2%nat /\
   hash_raw [255; 255; 255; 255; 255; 255; 255; 255; 255] = 831298521.
 Proof. vm_compute. repeat split. Qed.
+
+(* ---------------------------------------------------------------------------------------------------------
+   5. The length check of tcp_cache_service::session::store (MECHANISM: "server validates key/data/trigger lengths against
+      the frame size") is evaluated in uint32.  frame_ok h p: every header field is a 32-bit word and the payload has
+      exactly h_size bytes (what session::on_header_in has read).  store_check h: the check passes.
+      - without wrap-around the check is exact: the three regions partition the payload and the key is non-empty;
+      - the check passes exactly when the integer sum is the payload length, or exceeds it by 2^32 or 2^33;
+      - frames shorter than 2^31 bytes whose fields do not exceed the frame size cannot wrap (and from 2^31 on they can);
+      - REFUTED in general: a frame of ONE payload byte (key_len=1, data_len=2^32-1, triggers_len=1) passes the check and is
+        answered `done` by the model, while its value region ends 2^32 bytes behind the frame - the code reads there
+        (replayed on the implementation: SIGSEGV of the cache server, docs/C10_wrap.case, finding store-length-sum-wraps);
+      - the frames tcp_cache::store builds for contents shorter than 2^32 bytes never wrap. *)
+Theorem store_length_check_exact_without_wrap : forall h p,
+  frame_ok h p -> store_check h = true -> store_sum h < W32 ->
+  store_sum h = lenN p /\
+  p = take (h_u2 h) p ++ take (h_u3 h) (drop (h_u2 h) p) ++ take (h_u4 h) (drop (h_u2 h + h_u3 h) p) /\
+  take (h_u2 h) p <> [].
+Proof. exact store_check_exact. Qed.
+Print Assumptions store_length_check_exact_without_wrap.
+Theorem store_length_check_cases : forall h p,
+  frame_ok h p -> store_check h = true ->
+  store_sum h = lenN p \/ store_sum h = lenN p + W32 \/ store_sum h = lenN p + 2 * W32.
+Proof. exact store_check_cases. Qed.
+Print Assumptions store_length_check_cases.
+Theorem store_length_check_exact_for_small_frames : forall h p,
+  frame_ok h p -> store_check h = true -> h_size h < 2147483648 ->
+  h_u2 h <= h_size h -> h_u3 h <= h_size h -> h_u4 h <= h_size h -> store_sum h = lenN p.
+Proof. exact store_check_exact_small. Qed.
+Print Assumptions store_length_check_exact_for_small_frames.
+Theorem store_length_check_wraps_refuted :
+  exists h p, frame_ok h p /\ store_check h = true /\ lenN p < h_u2 h + h_u3 h /\
+              fst (fst (srv_handle 1000 h p c_empty)) = hdr0 op_done.
+Proof. exact store_check_wraps. Qed.
+Print Assumptions store_length_check_wraps_refuted.
+Theorem client_store_frames_never_wrap : forall k v trg dl,
+  lenN (k ++ v ++ enc_trigs trg) < W32 ->
+  let h := fst (enc_store k v trg dl) in let p := snd (enc_store k v trg dl) in
+  frame_ok h p /\ store_sum h = lenN p /\ store_sum h < W32.
+Proof. exact client_store_frame_exact. Qed.
+Print Assumptions client_store_frames_never_wrap.
+(* the model's srv_store is the check followed by the region reads (so the theorems above are about the modelled server) *)
+Theorem store_check_is_the_server_check : forall h p c,
+  (store_check h = false -> srv_store h p c = (hdr0 op_error, [], c)) /\
+  (store_check h = true -> srv_store h p c =
+     match load_triggers [] (take (h_u4 h) (drop (h_u2 h + h_u3 h) p)) with
+     | None => (hdr0 op_error, [], c)
+     | Some trg => (hdr0 op_done, [],
+                    c_store (take (h_u2 h) p) (take (h_u3 h) (drop (h_u2 h) p)) (mkset trg) (z64_of (h_u0 h) (h_u1 h)) None c)
+     end).
+Proof. intros h p c. split; [apply srv_store_refuses|apply srv_store_accepts]. Qed.
+Print Assumptions store_check_is_the_server_check.
+Example store_check_nonvacuous :
+  let h := fst (enc_store [107] [118; 0] [[116]] 2000) in let p := snd (enc_store [107] [118; 0] [[116]] 2000) in
+  frame_ok h p /\ store_check h = true /\ store_sum h = 5 /\
+  store_check (mkH op_store 6 0 0 2000 0 1 3 1 0) = false /\ store_check (mkH op_store 5 0 0 2000 0 0 3 2 0) = false.
+Proof. cbv zeta. split; [|vm_compute; repeat split]. split; [vm_compute; repeat split|reflexivity]. Qed.
+
+(* ---------------------------------------------------------------------------------------------------------
+   6. Cache server restarts (NOT in the quantifier of the property, which lists store/fetch/rise/clear only; all theorems
+      above are about `reachable`, which has no restart).  What holds across restarts, precisely.  reachable_r = reachable
+      plus any number of restarts of any servers at any time (Defs.restart: empty cache, generation counter 0).
+      - In every such world a fetch by any node answers EITHER what the responsible server holds now OR - only on a node
+        with an L1 - the node's own L1 record, and then the server's current record for the key has the same generation
+        number as that L1 copy (`fooled`: the handshake compared generations of two incarnations).
+      - Nodes without an L1 are never affected.
+      - A restart of server s in a reachable world in which no L1 holds a record for a key of s is harmless: every later
+        fetch after any further history is current again.
+      - The remaining case is real: restart_breaks_handshake above (replayed, docs/C10_restart.case). *)
+Theorem fetch_across_restarts_is_current_or_own_l1 : forall w c k tags r w1,
+  reachable_r w -> step w (OFetch c k tags) = (ObsFetch r, w1) -> current w k r \/ fooled w c k r.
+Proof. exact fetch_across_restarts. Qed.
+Print Assumptions fetch_across_restarts_is_current_or_own_l1.
+Theorem fetch_without_l1_unaffected_by_restarts : forall w c k tags r w1,
+  reachable_r w -> nth_error (w_cli w) c = Some None ->
+  step w (OFetch c k tags) = (ObsFetch r, w1) -> current w k r.
+Proof. exact fetch_without_l1_across_restarts. Qed.
+Print Assumptions fetch_without_l1_unaffected_by_restarts.
+Theorem restart_harmless_when_no_l1_holds_its_keys : forall w s h c k tags r w1,
+  reachable w -> l1s_hold_nothing_of w s ->
+  step (snd (run (restart w s) h)) (OFetch c k tags) = (ObsFetch r, w1) -> current (snd (run (restart w s) h)) k r.
+Proof. exact restart_harmless. Qed.
+Print Assumptions restart_harmless_when_no_l1_holds_its_keys.
+(* non-vacuity: the world of restart_breaks_handshake is reachable_r, node 0 is fooled, node 1 (no L1) is not; and after
+   an eviction of the key from the L1 of node 0 the hypothesis of restart_harmless holds and node 0 answers v2 *)
+Example restart_nonvacuous :
+  let w := snd (run (init_world 1 [true; false]) [OStore 1 [107] [49] [] 2000; OFetch 0 [107] true]) in
+  let w1 := snd (step (restart w 0) (OStore 1 [107] [50] [] 2000)) in
+  reachable_r w1 /\ fooled w1 0 [107] (Some ([49], [[107]], 2000%Z)) /\ ~ current w1 [107] (Some ([49], [[107]], 2000%Z)) /\
+  (let w2 := snd (step w (OEvict 0 [107])) in
+   reachable w2 /\ l1s_hold_nothing_of w2 0 /\
+   fst (step (snd (run (restart w2 0) [OStore 1 [107] [50] [] 2000])) (OFetch 0 [107] true)) =
+     ObsFetch (Some ([50], [[107]], 2000%Z))).
+Proof.
+  cbv zeta. split; [|split; [|split; [|split; [|split]]]].
+  - apply rr_step. apply rr_restart. apply reachable_is_reachable_r. apply run_reachable. constructor.
+  - vm_compute. do 4 eexists. repeat split; try reflexivity. eexists. reflexivity.
+  - vm_compute. intros [H _]. discriminate H.
+  - apply (reach_step _ (OEvict 0 [107])). apply run_reachable. constructor.
+  - intros j l k e Hj Hin. vm_compute in Hj. destruct j as [|[|j]]; [|discriminate Hj|destruct j; discriminate Hj].
+    inversion Hj; subst l. destruct Hin.
+  - vm_compute. reflexivity.
+Qed.
+
+(* ---------------------------------------------------------------------------------------------------------
+   7. The transport under the RPCs (src/tcp_messenger.cpp messenger::transmit over booster::aio::stream_socket::read/write;
+      model coq/C10/NetDefs.v).  A transfer schedule says how many bytes each readv / writev call moves (entry 0 = the call
+      fails; exhausted = everything).
+      - short transfers: whenever the read (write) loop completes, exactly the bytes asked for have been moved, whatever
+        the schedule; with positive entries and enough bytes in the stream it completes;
+      - transmit over ANY schedules of positive chunk sizes is the atomic RPC of Defs.v (srv_handle): the answer and the
+        server's new state do not depend on the schedules - this is what justifies "every RPC is one atomic server step";
+      - with failures anywhere (ANY schedules, reconnect refused or not) transmit returns the genuine answer to the first or
+        to a second execution of the genuine request, or `error`, or throws; the server has executed the genuine request
+        zero, one or two times and nothing else.  An `error` answer is a miss for tcp_cache::fetch: never a value;
+      - REFUTED: the retry does not always send the request again - after a failed read that had overwritten the size
+        field it sends more bytes than the request string holds (replayed: finding retry-sends-overwritten-header). *)
+Theorem short_transfers_move_exactly_the_bytes_asked_for : forall sched stream need,
+  (forall got s2 rest, sock_xfer sched stream need = (true, got, s2, rest) ->
+     got = take need stream /\ rest = drop need stream /\ need <= lenN stream) /\
+  (forall got s2 rest, sock_xfer sched stream need = (false, got, s2, rest) ->
+     exists j, j < need /\ got = take j stream /\ j <= lenN stream) /\
+  (positive_sched sched -> need <= lenN stream ->
+     exists s2, sock_xfer sched stream need = (true, take need stream, s2, drop need stream) /\ positive_sched s2).
+Proof.
+  intros sched stream need. split; [|split].
+  - intros got s2 rest. apply xfer_true.
+  - intros got s2 rest. apply xfer_false.
+  - apply sock_xfer_ok.
+Qed.
+Print Assumptions short_transfers_move_exactly_the_bytes_asked_for.
+Theorem transmit_is_the_atomic_rpc_for_every_transfer_schedule : forall ws1 rs1 up ws2 rs2 h data pad now c rh rp c1,
+  positive_sched ws1 -> positive_sched rs1 -> hdr_ok h -> h_size h = lenN data ->
+  srv_handle now h data c = (rh, rp, c1) -> hdr_ok rh ->
+  transmit ws1 rs1 up ws2 rs2 h (data ++ pad) now c = (TxReply rh rp, c1).
+Proof. exact transmit_schedule_independent. Qed.
+Print Assumptions transmit_is_the_atomic_rpc_for_every_transfer_schedule.
+Theorem transmit_under_failures_never_invents_an_answer :
+  forall ws1 rs1 up ws2 rs2 h data pad now c rh rp c1 rh2 rp2 c2,
+  hdr_ok h -> h_size h = lenN data -> request_op (h_op h) ->
+  srv_handle now h data c = (rh, rp, c1) -> hdr_ok rh ->
+  srv_handle now h data c1 = (rh2, rp2, c2) -> hdr_ok rh2 ->
+  match transmit ws1 rs1 up ws2 rs2 h (data ++ pad) now c with
+  | (TxReply a b, c') =>
+      (a = rh /\ b = rp /\ c' = c1) \/ (a = rh2 /\ b = rp2 /\ c' = c2) \/ (a = hdr0 op_error /\ b = [] /\ c' = c1)
+  | (TxExn, c') => c' = c \/ c' = c1 \/ c' = c2
+  end.
+Proof. exact transmit_any_schedule. Qed.
+Print Assumptions transmit_under_failures_never_invents_an_answer.
+Theorem error_answer_is_never_a_value : forall tif want, dec_fetch tif want (hdr0 op_error) [] = FNotFound.
+Proof. exact error_answer_is_a_miss. Qed.
+Print Assumptions error_answer_is_never_a_value.
+Theorem retry_sends_the_request_again_refuted :
+  exists h data rh j g,
+    hdr_ok h /\ h_size h = lenN data /\ request_op (h_op h) /\ hdr_ok rh /\ reply_op (h_op rh) /\ 1 <= j <= 40 /\
+    hdr_parse (overlay (take j (hdr_bytes rh)) (hdr_bytes h)) = Some g /\ lenN data < h_size g.
+Proof. exact garbled_retry_overreads. Qed.
+Print Assumptions retry_sends_the_request_again_refuted.
+(* the request opcodes are the source's request opcodes, the answer opcodes its answer opcodes (Gen_tcpproto) *)
+Theorem request_and_answer_opcodes_are_source :
+  (forall o, request_op o <-> In (Z.of_N o) [g_op_fetch; g_op_rise; g_op_clear; g_op_store; g_op_stats]) /\
+  (forall o, reply_op o <-> In (Z.of_N o) [g_op_error; g_op_done; g_op_data; g_op_no_data; g_op_uptodate; g_op_out_stats]).
+Proof.
+  destruct link_opcodes as (A0 & A1 & A2 & A3 & A4 & A5 & A6 & A7 & A8 & A9 & A10 & _).
+  rewrite A0, A1, A2, A3, A4, A5, A6, A7, A8, A9, A10.
+  unfold request_op, reply_op, op_fetch, op_rise, op_clear, op_store, op_stats, op_error, op_done, op_data, op_no_data,
+    op_uptodate, op_out_stats. cbn [In]. split; intros o; lia.
+Qed.
+Print Assumptions request_and_answer_opcodes_are_source.
+Example transport_nonvacuous :
+  let rq := enc_fetch [107] 0 true false in
+  let c := snd (srv_handle 1000 (fst (enc_store [107] [118; 0; 119] [[116]] 2000)) (snd (enc_store [107] [118; 0; 119] [[116]] 2000)) c_empty) in
+  let genuine := srv_handle 1000 (fst rq) (snd rq) c in
+  (* one byte per call in both directions = everything at once *)
+  transmit (repeat 1 41) (repeat 1 50) false [] [] (fst rq) (snd rq ++ [1; 2; 3; 4; 5; 6; 7; 8]) 1000 c = (TxReply (fst (fst genuine)) (snd (fst genuine)), c) /\
+  transmit [] [] false [] [] (fst rq) (snd rq ++ [1; 2; 3; 4; 5; 6; 7; 8]) 1000 c = (TxReply (fst (fst genuine)) (snd (fst genuine)), c) /\
+  h_op (fst (fst genuine)) = op_data /\ snd (fst genuine) = [118; 0; 119; 107; 0; 116; 0] /\
+  (* the connection fails 8 bytes into the answer: the retry is answered `error` *)
+  transmit [] [8; 0] true [] [] (fst rq) (snd rq ++ [1; 2; 3; 4; 5; 6; 7; 8]) 1000 c = (TxReply (hdr0 op_error) [], c) /\
+  (* fails before the request is out, reconnect refused: exception *)
+  transmit [3; 0] [] false [] [] (fst rq) (snd rq ++ [1; 2; 3; 4; 5; 6; 7; 8]) 1000 c = (TxExn, c) /\
+  (* fails before the request is out, reconnect works: genuine answer *)
+  transmit [3; 0] [] true [7] [2; 2] (fst rq) (snd rq ++ [1; 2; 3; 4; 5; 6; 7; 8]) 1000 c = (TxReply (fst (fst genuine)) (snd (fst genuine)), c).
+Proof. vm_compute. repeat split. Qed.
+
+(* ---------------------------------------------------------------------------------------------------------
+   8. Cache servers that are down (connection refused on reconnect: messenger::transmit throws cppcms_error).  nstep = step
+      plus servers going down / coming up (same process, cache kept); an RPC to a server that is down throws in the node.
+      - with all servers up nstep is step (so every theorem above is about nstep too);
+      - in every world reachable with such events - operations that fail half-way included (a rise / clear that threw has
+        reached the servers before the first one that is down) - a fetch that returns returns what the responsible server
+        holds now; a fetch that throws changes nothing; a store that throws changes no server. *)
+Theorem all_servers_up_is_the_plain_model : forall x o,
+  all_up x -> (0 < nsrv (nw x))%nat ->
+  nstep x (NOp o) = let (r, w2) := step (nw x) o in (NObs r, mkNW w2 (nw_up x)).
+Proof. exact nstep_all_up. Qed.
+Print Assumptions all_servers_up_is_the_plain_model.
+Theorem fetch_current_with_servers_down : forall x c k tags r x1,
+  nreachable x -> nstep x (NOp (OFetch c k tags)) = (NObs (ObsFetch r), x1) -> current (nw x) k r.
+Proof. exact nfetch_current. Qed.
+Print Assumptions fetch_current_with_servers_down.
+Theorem failed_fetch_changes_nothing : forall x c k tags x1, nstep x (NOp (OFetch c k tags)) = (NExn, x1) -> x1 = x.
+Proof. exact nfetch_exn. Qed.
+Print Assumptions failed_fetch_changes_nothing.
+Theorem failed_store_changes_no_server : forall x c k v trg dl x1,
+  nstep x (NOp (OStore c k v trg dl)) = (NExn, x1) -> w_srv (nw x1) = w_srv (nw x) /\ nw_up x1 = nw_up x.
+Proof. exact nstore_exn. Qed.
+Print Assumptions failed_store_changes_no_server.
+Theorem failed_rise_reached_the_servers_before_the_first_down : forall x c t x1,
+  nstep x (NOp (ORise c t)) = (NExn, x1) ->
+  exists w1, on_l1 (nw x) c (c_rise t) = Some w1 /\ (first_down (nw_up x) (nsrv w1) < nsrv w1)%nat /\
+             nw x1 = broadcast (first_down (nw_up x) (nsrv w1)) w1 (enc_rise t).
+Proof. exact nrise_exn. Qed.
+Print Assumptions failed_rise_reached_the_servers_before_the_first_down.
+(* a fetch whose connection failed in the middle of the answer (NGarbled: the retry was answered `error`, section 7) reports a
+   miss, purges the key from the L1 of the node, changes no server - and is a step of nreachable, so every later fetch is
+   current again (fetch_current_with_servers_down) *)
+Theorem fetch_after_mid_answer_failure_is_a_miss : forall x c k a x1,
+  nstep x (NGarbled c k) = (a, x1) ->
+  (a = NObs (ObsFetch None) \/ a = NObs ObsBad) /\ w_srv (nw x1) = w_srv (nw x) /\ nw_up x1 = nw_up x.
+Proof. exact ngarbled_miss. Qed.
+Print Assumptions fetch_after_mid_answer_failure_is_a_miss.
+Example servers_down_nonvacuous :
+  let h := [NOp (OStore 0 [107] [49] [[116]] 2000); NOp (OStore 0 [108] [50] [[116]] 2000); NOp (OFetch 1 [107] true); NDown 1;
+            NOp (OFetch 1 [107] true); NOp (OStore 0 [107] [51] [] 2000); NOp (ORise 0 [116]); NUp 1;
+            NOp (OFetch 1 [107] true); NOp (OFetch 1 [108] true)] in
+  nreachable (snd (nrun (ninit 2 [false; true]) h)) /\
+  fst (nrun (ninit 2 [false; true]) h) =
+    [NObs ObsNone; NObs ObsNone; NObs (ObsFetch (Some ([49], [[107]; [116]], 2000%Z))); NObs ObsNone;
+     NExn; NExn; NExn; NObs ObsNone;
+     NObs (ObsFetch (Some ([49], [[107]; [116]], 2000%Z))); NObs (ObsFetch None)].
+Proof.
+  cbv zeta. split; [|vm_compute; reflexivity].
+  assert (forall h x, nreachable x -> nreachable (snd (nrun x h))) as R.
+  { induction h as [|o r IH]; intros x Hx; cbn [nrun]; [exact Hx|].
+    destruct (nstep x o) as [a x1] eqn:E. specialize (IH x1).
+    destruct (nrun x1 r) as [l x2]. cbn [snd] in *. apply IH.
+    replace x1 with (snd (nstep x o)) by (rewrite E; reflexivity). constructor. exact Hx. }
+  apply R. constructor.
+Qed.
+
+(* ---------------------------------------------------------------------------------------------------------
+   9. The key -> server distribution and the ORDER of the server list.  tcp_connector::hash returns an index into the
+      node's own list, so "keys are spread consistently" holds exactly when all nodes have the same list in the same order
+      (assumption of all theorems above; `phys order k` = the physical server a node with list `order` uses):
+      - two different orderings of equally many (up to 256) servers disagree on the server of some key;
+      - REFUTED without the assumption: with a node whose list is reversed (NetDefs.rstep) a completed store by that node is
+        not seen by the others, which keep answering the older value (witness; replayed, docs/C10_order.case);
+      - with one server the reversed world is the world; adding a server moves keys (hash mod n, witness). *)
+Theorem different_server_orders_disagree_on_some_key : forall o1 o2 : list nat,
+  length o1 = length o2 -> (length o1 <= 256)%nat -> o1 <> o2 -> exists k, phys o1 k <> phys o2 k.
+Proof. exact order_matters. Qed.
+Print Assumptions different_server_orders_disagree_on_some_key.
+Theorem reversed_server_order_refutes_the_property :
+  let w0 := init_world 2 [false; false] in
+  let w1 := snd (step w0 (OStore 0 [107] [49] [] 2000)) in
+  let w2 := snd (rstep w1 (OStore 1 [107] [50] [] 2000)) in
+  fst (step w2 (OFetch 0 [107] true)) = ObsFetch (Some ([49], [[107]], 2000%Z)) /\
+  fst (rstep w2 (OFetch 1 [107] true)) = ObsFetch (Some ([50], [[107]], 2000%Z)) /\
+  map (fun s => map (fun p => (fst p, e_val (snd p))) (c_items s)) (w_srv w2) = [[([107], [50])]; [([107], [49])]].
+Proof. exact reversed_order_breaks_the_property. Qed.
+Print Assumptions reversed_server_order_refutes_the_property.
+Theorem one_server_order_irrelevant : forall w, nsrv w = 1%nat -> rev_srv w = w.
+Proof. exact rev_srv_one. Qed.
+Print Assumptions one_server_order_irrelevant.
+Theorem single_byte_keys_reach_every_server : forall n i,
+  (1 < n)%nat -> (i < n)%nat -> (n <= 256)%nat -> server_of n [N.of_nat i] = i.
+Proof. exact server_of_single. Qed.
+Print Assumptions single_byte_keys_reach_every_server.
+Example order_nonvacuous :
+  phys [5; 9]%nat [107] = 9%nat /\ phys [9; 5]%nat [107] = 5%nat /\
+  (exists k, server_of 2 k <> server_of 3 k /\ server_of 2 k = 1%nat /\ server_of 3 k = 2%nat).
+Proof. split; [reflexivity|]. split; [reflexivity|]. exact adding_a_server_moves_keys. Qed.
+
+(* ---------------------------------------------------------------------------------------------------------
+   10. More of the wire format from the source: the SIZE of every field of tcp_operation_header as declared now (sizeof
+       evaluated by clang), adjacency of the fields of each union member, the union between filler and end of header. *)
+Theorem header_field_sizes_are_source :
+  (g_size_of_opcode = 4 /\ g_size_of_size = 4 /\ g_size_of_filler = 8 /\ g_size_of_operations = 24 /\
+  g_size_of_fetch_current_gen = 8 /\ g_size_of_fetch_key_len = 4 /\ g_size_of_rise_trigger_len = 4 /\
+  g_size_of_store_timeout = 8 /\ g_size_of_store_key_len = 4 /\ g_size_of_store_data_len = 4 /\ g_size_of_store_triggers_len = 4 /\
+  g_size_of_data_generation = 8 /\ g_size_of_data_timeout = 8 /\ g_size_of_data_data_len = 4 /\ g_size_of_data_triggers_len = 4 /\
+  g_size_of_out_stats_keys = 4 /\ g_size_of_out_stats_triggers = 4 /\
+  g_off_size = g_off_opcode + g_size_of_opcode /\ g_off_filler = g_off_size + g_size_of_size /\
+  g_off_operations = g_off_filler + g_size_of_filler /\ g_size_of_header = g_off_operations + g_size_of_operations /\
+  g_off_fetch_current_gen = g_off_operations /\ g_off_fetch_key_len = g_off_fetch_current_gen + g_size_of_fetch_current_gen /\
+  g_size_of_fetch_struct = g_size_of_fetch_current_gen + g_size_of_fetch_key_len + 4 /\
+  g_off_rise_trigger_len = g_off_operations /\
+  g_off_store_timeout = g_off_operations /\ g_off_store_key_len = g_off_store_timeout + g_size_of_store_timeout /\
+  g_off_store_data_len = g_off_store_key_len + g_size_of_store_key_len /\
+  g_off_store_triggers_len = g_off_store_data_len + g_size_of_store_data_len /\
+  g_off_store_triggers_len + g_size_of_store_triggers_len + 4 = g_off_operations + g_size_of_store_struct /\
+  g_off_data_generation = g_off_operations /\ g_off_data_timeout = g_off_data_generation + g_size_of_data_generation /\
+  g_off_data_data_len = g_off_data_timeout + g_size_of_data_timeout /\
+  g_off_data_triggers_len = g_off_data_data_len + g_size_of_data_data_len /\
+  g_off_data_triggers_len + g_size_of_data_triggers_len = g_off_operations + g_size_of_data_struct /\
+  g_off_out_stats_keys = g_off_operations /\ g_off_out_stats_triggers = g_off_out_stats_keys + g_size_of_out_stats_keys)%Z.
+Proof. exact link_field_sizes. Qed.
+Print Assumptions header_field_sizes_are_source.
+
+(* ---------------------------------------------------------------------------------------------------------
+   11. The trigger set a fetch returns, EXACTLY (decision on the observation "cache_over_ip::fetch returns the union of stale L1
+       triggers and the server's triggers").  In every reachable world, NUL-free names: a node without L1 and an L1 miss return the
+       server record's set; an L1 hit confirmed by the server returns the L1 copy's set (which contains the server record's:
+       fetch_returns_at_least_the_trigger_set); an L1 hit answered with newer data returns the union of both.  So a name of the
+       current record is never missing (the property's concern: invalidation of the enclosing page) and a name that is returned is
+       a name of the current record or of the node's own L1 copy - over-invalidation only: not a violation. *)
+Theorem fetch_returns_exactly_this_trigger_set : forall w c k v tt dl w1 s e,
+  reachable w -> step w (OFetch c k true) = (ObsFetch (Some (v, tt, dl)), w1) ->
+  nth_error (w_srv w) (server_of (nsrv w) k) = Some s -> c_fetch (w_now w) k s = Some e ->
+  Forall nul_free (e_trg e) -> trig_answer w c k e tt.
+Proof. exact fetch_trigger_set_exact. Qed.
+Print Assumptions fetch_returns_exactly_this_trigger_set.
+Theorem fetch_returns_no_invented_trigger : forall w c k v tt dl w1 s e y,
+  reachable w -> step w (OFetch c k true) = (ObsFetch (Some (v, tt, dl)), w1) ->
+  nth_error (w_srv w) (server_of (nsrv w) k) = Some s -> c_fetch (w_now w) k s = Some e ->
+  Forall nul_free (e_trg e) -> In y tt ->
+  In y (e_trg e) \/ exists l1 e1, nth_error (w_cli w) c = Some (Some l1) /\ c_fetch (w_now w) k l1 = Some e1 /\ In y (e_trg e1).
+Proof. exact fetch_trigger_set_upper_bound. Qed.
+Print Assumptions fetch_returns_no_invented_trigger.
+(* non-vacuity: the three cases of trig_answer on the world of trigger_superset_strict (node 0 has L1, node 1 has none) *)
+Example trigger_exact_nonvacuous :
+  let h := [OStore 1 [107] [49] [[116]] 2000; OFetch 0 [107] true; OStore 1 [107] [50] [[117]] 2000] in
+  let w := snd (run (init_world 1 [true; false]) h) in
+  let w2 := snd (step w (OFetch 0 [107] true)) in
+  reachable w /\
+  fst (step w (OFetch 0 [107] true)) = ObsFetch (Some ([50], sunion [[107]; [117]] [[107]; [116]], 2000%Z)) /\
+  fst (step w (OFetch 1 [107] true)) = ObsFetch (Some ([50], [[107]; [117]], 2000%Z)) /\
+  fst (step w2 (OFetch 0 [107] true)) = ObsFetch (Some ([50], [[107]; [116]; [117]], 2000%Z)).
+Proof. cbv zeta. split; [apply run_reachable; constructor|vm_compute; repeat split]. Qed.
+
+(* ---------------------------------------------------------------------------------------------------------
+   12. The atomic RPC of the world model (Defs.rpc, used by every theorem about histories) IS messenger::transmit over ANY
+       schedules of short transfers in both directions (section 7), for frames with 32-bit fields whose size field is the payload
+       length - which the frames of the client encoders are. *)
+Theorem world_rpc_is_transmit_for_every_transfer_schedule : forall w i c h data pad ws1 rs1 up ws2 rs2 rh rp w1,
+  nth_error (w_srv w) i = Some c ->
+  positive_sched ws1 -> positive_sched rs1 -> hdr_ok h -> h_size h = lenN data ->
+  rpc w i (h, data) = (rh, rp, w1) -> hdr_ok rh ->
+  exists c1, transmit ws1 rs1 up ws2 rs2 h (data ++ pad) (w_now w) c = (TxReply rh rp, c1) /\
+             w1 = mkW (upd i c1 (w_srv w)) (w_cli w) (w_now w).
+Proof. exact rpc_is_transmit. Qed.
+Print Assumptions world_rpc_is_transmit_for_every_transfer_schedule.
+Theorem client_request_frames_are_well_formed :
+  (forall k g want tif, lenN k < W32 -> g < W64 ->
+     hdr_ok (fst (enc_fetch k g want tif)) /\ h_size (fst (enc_fetch k g want tif)) = lenN (snd (enc_fetch k g want tif)) /\
+     request_op (h_op (fst (enc_fetch k g want tif)))) /\
+  (forall t, lenN t < W32 ->
+     hdr_ok (fst (enc_rise t)) /\ h_size (fst (enc_rise t)) = lenN (snd (enc_rise t)) /\ request_op (h_op (fst (enc_rise t)))) /\
+  (forall k v trg dl, lenN (k ++ v ++ enc_trigs trg) < W32 ->
+     frame_ok (fst (enc_store k v trg dl)) (snd (enc_store k v trg dl)) /\ request_op (h_op (fst (enc_store k v trg dl)))) /\
+  (hdr_ok (fst enc_clear) /\ h_size (fst enc_clear) = lenN (snd enc_clear) /\ request_op (h_op (fst enc_clear))) /\
+  (hdr_ok (fst enc_stats) /\ h_size (fst enc_stats) = lenN (snd enc_stats) /\ request_op (h_op (fst enc_stats))).
+Proof.
+  split; [exact enc_fetch_frame|]. split; [exact enc_rise_frame|]. split; [|exact enc_clear_stats_frame].
+  intros k v trg dl L. split; [apply (client_store_frame_exact k v trg dl L)|]. vm_compute. reflexivity.
+Qed.
+Print Assumptions client_request_frames_are_well_formed.
